@@ -66,8 +66,9 @@ def check(ctx):
 
 def create_output(ctx):
     """R15.1 / R15.3 on the traces of DataHandler._create_output_file (pvs/handler_trace.py): the method is followed against a model
-    file system for six situations (nothing exists; the requested name exists; it and `-1` exist; a stale tmp file exists; a stale
-    tmp file and `-1` exist; no output requested) and every open / close / remove is compared with the protocol."""
+    file system for nine situations (nothing exists; the requested name exists; it and `-1` exist; a stale tmp file exists; a stale
+    tmp file and `-1` exist; no output requested; a dot in the directory name with and without a name clash, with and without a
+    suffix) and every open / close / remove is compared with the protocol."""
     from ..handler_trace import create_scenarios, trace_create
     repo = ctx.repo
     f = repo.func(RUNNER, "DataHandler._create_output_file")
@@ -81,6 +82,9 @@ def create_output(ctx):
         for e in opens:
             if e.mode != "x":
                 non_excl.append(f"[{tag}] {e.path} is opened with mode {e.mode!r}")
+        if t.outcome[0] == "diverges":
+            wrong_name.append(f"[{tag}] no name is ever chosen: the attempts go on with {t.outcome[1]}")
+            continue
         if t.outcome[0] != "return":
             wrong_name.append(f"[{tag}] raises {t.outcome[1]}")
             continue
@@ -115,7 +119,7 @@ def create_output(ctx):
            witness={"input": "touch z.h5.tmp; existing z-1.h5; SolverOptions(output_file='z.h5')"})
     ctx.ob("R15.3", "a name clash bumps the serial number and retries: the files returned are <name>.h5, <name>-1.h5, <name>-2.h5 ... with their .tmp",
            not wrong_name, detail=wrong_name[:3], where=f.fq, construct="serial-number retry", loc=loc(f, f.node),
-           message=f"the FileExistsError handler does not increment the serial and retry: {wrong_name[:1]}",
+           message=f"the name chosen for the output file is not the requested one with the next free serial number: {wrong_name[:1]}",
            consequence="an existing output file is overwritten or the solver loops forever")
     ctx.ob("R15.3", "output and tmp file are created exclusively (mode 'x')", not non_excl, detail=non_excl[:3], where=f.fq,
            construct="open mode of the output files", loc=loc(f, f.node), message=f"{non_excl[:1]}",
